@@ -31,6 +31,9 @@ def show(v, ty, recs=None):
     if ty == "Int":
         assert isinstance(v, int) and not isinstance(v, bool), v
         return str(v)
+    if ty == "Nat":
+        assert isinstance(v, int) and not isinstance(v, bool) and v >= 0, v
+        return str(v)
     if ty == "Bool":
         assert isinstance(v, bool), v
         return "True" if v else "False"
@@ -54,6 +57,8 @@ def lit(v, ty, recs):
         return str(int(v)) if v >= 0 else f"({int(v)})"
     if ty == "Bool":
         return "true" if v else "false"
+    if ty == "Nat":
+        return str(int(v))
     if ty[0] == "D":
         ty = ("L", ("T", ty[1], ty[2]))
     if ty[0] == "L":
@@ -360,8 +365,46 @@ def _steps_cases():
     return {"Model._wrapped_step": (gen, call)}
 
 
+# ------------------------------------------------------------------ C06: cell.py (occupancy mutators on one real Cell)
+def _cellocc_cases():
+    core.import_mesa()
+    import mesa
+    from mesa.discrete_space import Cell, CellAgent
+
+    model = mesa.Model()
+    pool = [CellAgent(model) for _ in range(8)]          # agent i of the record = pool[i]
+
+    def gen(rng):
+        n = rng.choice([0, 0, 1, 1, 2, 3, 5])
+        ags = [rng.randrange(6) for _ in range(n)] if rng.random() < 0.25 else rng.sample(range(6), n)   # sometimes a duplicate
+        cap = rng.choice([None, None, 0, 1, 2, 3, n, n, n + 1, max(n - 1, 0)])
+        agent = rng.choice(ags) if ags and rng.random() < 0.6 else rng.randrange(8)
+        return {"self": {"_agents": ags, "capacity": cap, "empty": rng.random() < 0.5}, "agent": agent}
+
+    def cell(a):
+        c = Cell((0,), capacity=a["self"]["capacity"], random=random.Random(0))
+        c._agents = [pool[i] for i in a["self"]["_agents"]]
+        c.empty = a["self"]["empty"]
+        return c
+
+    def mutate(name):
+        def call(a):
+            c = cell(a)
+            try:
+                r = getattr(Cell, name)(c, pool[a["agent"]])
+                assert r is None
+            except Exception as e:       # noqa: BLE001
+                r = map_exc(e)
+            return (r, [pool.index(x) for x in c._agents], c.empty)
+        return call
+
+    return {"Cell.agents": (gen, lambda a: [pool.index(x) for x in cell(a).agents]),
+            "Cell.is_empty": (gen, lambda a: cell(a).is_empty), "Cell.is_full": (gen, lambda a: cell(a).is_full),
+            "Cell.add_agent": (gen, mutate("add_agent")), "Cell.remove_agent": (gen, mutate("remove_agent"))}
+
+
 RECS = {r.name: r for g in XR.GROUPS.values() for r in g["recs"]}
-SUITES = {"Cells": _grid_cases, "Legacy": _legacy_cases, "Devs": _devs_cases, "Steps": _steps_cases}
+SUITES = {"CellOcc": _cellocc_cases, "Cells": _grid_cases, "Legacy": _legacy_cases, "Devs": _devs_cases, "Steps": _steps_cases}
 
 
 # ------------------------------------------------------------------ runner
